@@ -16,6 +16,7 @@ def run(tier, seed):
     wiring.entry_point_obligations(rep, tier)
     wiring.rule_wrapper_obligations(rep, tier)
     wiring.derived_start_obligations(rep, tier)
+    wiring.derived_namespace_obligations(rep, tier)      # "no other exception escapes": no NameError from run-time support missing in a derived module
     rep.assumptions.append('shift clause: mechanised as a lemma over the SPEC functions of the loop-free combinators and the literal leaves (shift-invariant children '
                            'give a shift-invariant outcome; refuted for Backtrack as it must be); loop classes through their recursive spec functions and the step '
                            'from spec to code (the fragment contracts) are combined on paper; Regex by the re contract without anchors / look-behind; line/column are not claimed shift-invariant')
